@@ -27,9 +27,15 @@ int main(void)
       { /* the same inversions into outputs that hold a result / junk, and in place (input and output the same object) */
         matrix *c = dup_matrix(inv), *a2;
         MatrixInversion(a, inv); RB(0, same_m(inv, c)); junk_m(inv); MatrixInversion(a, inv); RB(0, same_m(inv, c));
+        /* ... and into outputs that held a table agreeing with the input in one dimension only, or in none */
+        other_m(&inv, a->row, a->col + 2); MatrixInversion(a, inv); RB(0, same_m(inv, c));
+        other_m(&inv, a->row + 1, a->col); MatrixInversion(a, inv); RB(0, same_m(inv, c));
+        other_m(&inv, a->row + 2, a->col + 3); MatrixInversion(a, inv); RB(0, same_m(inv, c));
         a2 = dup_matrix(a); MatrixInversion(a2, a2); RB(1, same_m(a2, c)); DelMatrix(&a2); DelMatrix(&c);
         c = dup_matrix(lu);
         MatrixLUInversion(a, lu); RB(2, same_m(lu, c)); junk_m(lu); MatrixLUInversion(a, lu); RB(2, same_m(lu, c));
+        other_m(&lu, a->row, a->col + 2); MatrixLUInversion(a, lu); RB(2, same_m(lu, c));
+        other_m(&lu, a->row + 1, a->col); MatrixLUInversion(a, lu); RB(2, same_m(lu, c));
         a2 = dup_matrix(a); MatrixLUInversion(a2, a2); RB(3, same_m(a2, c)); DelMatrix(&a2); DelMatrix(&c); }
       DelMatrix(&inv); DelMatrix(&lu);
       pr_long("reuse_bad", reuse_mask);
@@ -60,7 +66,9 @@ int main(void)
       matrix *a = rd_matrix(), *p; initMatrix(&p);
       MatrixMoorePenrosePseudoinverse(a, p); pr_matrix("pinv", p);
       reuse_mask = 0;
-      { matrix *k = dup_matrix(p); junk_m(p); MatrixMoorePenrosePseudoinverse(a, p); RB(0, same_m(p, k)); DelMatrix(&k); }
+      { matrix *k = dup_matrix(p); junk_m(p); MatrixMoorePenrosePseudoinverse(a, p); RB(0, same_m(p, k));
+        other_m(&p, k->row, k->col + 1); MatrixMoorePenrosePseudoinverse(a, p); RB(0, same_m(p, k));
+        other_m(&p, k->row + 2, k->col); MatrixMoorePenrosePseudoinverse(a, p); RB(0, same_m(p, k)); DelMatrix(&k); }
       pr_long("reuse_bad", reuse_mask);
       DelMatrix(&p); DelMatrix(&a);
     }
